@@ -16,7 +16,7 @@ CONSTANTS MaxCalls, Ids, Lens, Bits
 VARIABLES S, k
 gvars == <<S, k>>
 
-SigEv == [id |-> 1, src |-> 0, st |-> 0, dt |-> "f32", bits |-> Bits, rate |-> 1000, spd |-> 0, sdf |-> 0, eps |-> 0, sumdf |-> 0,
+SigEv == [id |-> 1, src |-> 0, st |-> 0, dt |-> "f32", fq |-> 0, bits |-> Bits, rate |-> 1000, spd |-> 0, sdf |-> 0, eps |-> 0, sumdf |-> 0,
           adf |-> 0, udf |-> 0, name |-> "s:x", units |-> "s:u"]
 \* a tiny geometry instead of the normalised one: 4 samples per block
 G0 == [NewSig(SigEv) EXCEPT !.norm = [spd |-> 4, sdf |-> 2, eps |-> 4, sumdf |-> 2, adf |-> 10, udf |-> 10]]
